@@ -138,6 +138,18 @@ def namedHasNs (s : Stanza) (t : Tag) (n : Ns) : Bool :=
 def namedNs (s : Stanza) (t : Tag) (n : Ns) : Option Kid :=
   s.kids.find? (fun k => k.tag == t && k.ns == n)
 
+/-- the flag of the first child with that tag (false when there is none) -/
+def namedFlag (s : Stanza) (t : Tag) : Bool :=
+  match named s t with
+  | some k => k.flag
+  | none => false
+
+/-- the flag of the first child with that tag and namespace (false when there is none) -/
+def namedNsFlag (s : Stanza) (t : Tag) (n : Ns) : Bool :=
+  match namedNs s t n with
+  | some k => k.flag
+  | none => false
+
 /-! ### The bundled managers (src/client/*Manager.cpp, `handleStanza`) -/
 
 /-- QXmppVCardManager.cpp:153 — any type, any sender -/
@@ -176,10 +188,8 @@ def discoBeh (s : Stanza) : Beh :=
 
 /-- QXmppArchiveManager.cpp:20 -/
 def archiveBeh (s : Stanza) : Beh :=
-  let chat := match namedNs s .chat .archive with
-    | some k => k.flag
-    | none => false
-  if chat then .swallow
+  -- isArchiveChatIq: the first chat@archive child, wherever it is, has a non-empty `with`
+  if namedNsFlag s .chat .archive then .swallow
   else if headIs s .list .archive then .swallow
   else if headIs s .pref .archive then .swallow
   else .pass
@@ -214,9 +224,8 @@ def registrationBeh (s : Stanza) : Beh :=
 def rpcBeh (s : Stanza) : Beh :=
   let q := namedHasNs s .query .rpc
   if q && s.type = .set then
-    (match named s .query with
-     | some k => if k.flag then .reply .error else .swallow
-     | none => .swallow)
+    -- invokeInterfaceMethod: method name not of the form a.b → plain `return`; unknown interface → error IQ
+    (if namedFlag s .query then .reply .error else .swallow)
   else if q && s.type = .result then .swallow
   else if s.type = .error && (named s .error).isSome && q then .swallow
   else .pass
@@ -341,23 +350,28 @@ def ToC.okFor (f : From) : ToC → Bool
   | .sender => true
   | .none => f = .none || f = .ownBare || f = .domain
 
-def Rep.okFor (s : Stanza) (r : Rep) : Bool := r.idSame && r.to.okFor s.frm
+/-- exactly one reply, carrying the request's id and addressed so that it reaches a requester of class `f` -/
+def okOne (f : From) : List Rep → Bool
+  | [r] => r.idSame && r.to.okFor f
+  | _ => false
 
-/-- the statement of C08 for one stanza and what was sent for it -/
-def answeredRight (s : Stanza) (sent : List Rep) : Bool :=
-  if isReq s.type then
-    (match sent with
-     | [r] => r.okFor s
-     | _ => false)
-  else if isResp s.type then sent.isEmpty
+/-- the statement of C08 for a stanza of type `t` from `f`, given what was sent for it -/
+def answeredTF (t : IqType) (f : From) (sent : List Rep) : Bool :=
+  if isReq t then okOne f sent
+  else if isResp t then sent.isEmpty
   else true
 
-/-- per-row condition that makes the pipeline satisfy C08 whatever else is installed -/
-def Beh.goodFor (s : Stanza) (b : Beh) : Bool :=
-  if isReq s.type then
-    (if b.handled then answeredRight s b.sent else b.sent.isEmpty)
-  else if isResp s.type then b.sent.isEmpty
+def answeredRight (s : Stanza) (sent : List Rep) : Bool := answeredTF s.type s.frm sent
+
+/-- per-row condition that makes the pipeline satisfy C08 whatever else is installed: a request is either
+handled with exactly one proper reply or passed on silently; nothing is ever sent for a response -/
+def goodTF (t : IqType) (f : From) (b : Beh) : Bool :=
+  if isReq t then
+    (if b.handled then okOne f b.sent else b.sent.isEmpty)
+  else if isResp t then b.sent.isEmpty
   else true
+
+def Beh.goodFor (s : Stanza) (b : Beh) : Bool := goodTF s.type s.frm b
 
 def Row.good (r : Row) (s : Stanza) : Bool := (r.run s).goodFor s
 
@@ -369,14 +383,12 @@ def defectCell : Mgr → Stanza → Bool
       (s.type = .get || (s.type = .set && (s.frm = .ownFull || s.frm = .ownOther)))
   | .archive, s =>
     isReq s.type &&
-      ((match namedNs s .chat .archive with | some k => k.flag | none => false)
-        || headIs s .list .archive || headIs s .pref .archive)
+      (namedNsFlag s .chat .archive || headIs s .list .archive || headIs s .pref .archive)
   | .bookmark, s => isReq s.type && headIs s .query .priv && headFlag s
   | .mam, s => isReq s.type && namedHasNs s .fin .mam
   | .registration, s => isReq s.type && (s.id = .reg || headIs s .query .register)
   | .rpc, s =>
-    s.type = .set && namedHasNs s .query .rpc &&
-      !(match named s .query with | some k => k.flag | none => false)
+    s.type = .set && namedHasNs s .query .rpc && !namedFlag s .query
   | .transfer, s =>
     (isResp s.type && (headIs s .close .ibb || headIs s .data .ibb || headIs s .openT .ibb))
     || (s.type = .get && !(headIs s .close .ibb || headIs s .data .ibb || headIs s .openT .ibb)
